@@ -244,6 +244,10 @@ def handleCore : List String → List String → String
       let r := cmp (" ".intercalate out) (.ok s!"code={c} form={b01 form}") "wserr"
       if valid then r else s!"VIOL invalid close code {c}"
     | none => "BAD kind"
+  | ["wstrunc", hm], out =>
+    match parseHex hm with
+    | some m => cmp (" ".intercalate out) ((truncateCloseReason m).map toHex) (if m.length > 123 then "wstrunc-cut" else "wstrunc-fit")
+    | none => "BAD hex"
   | ["wrap", dir, kind], out =>
     match parseErrKind kind with
     | some e =>
